@@ -238,6 +238,8 @@ class Checker(object):
         except MachineryError:
             raise
         standalone = "import numpy as np\nimport periodictable as pt\nprint(%s)\n" % src
+        if acc.states % 40009 == 7:
+            acc.sample(dict(case, call=src))
         acc.states += 1
         acc.evaluations += 1
         acc.transitions += 1
@@ -537,6 +539,36 @@ def do_nodata(ck, key):
                 ck.case("compound", frags, form, ("density", 2.33), ("en", [4.75], "scalar"))
 
 
+def all_nodata_atoms(data):
+    """Every element and every isotope of the mass table for which the reader finds no neutron data
+    (atoms that are not judged - Ra, n, Pu, Cm elements - are left out)."""
+    out = []
+    zs = sorted(set(z for z, a in data.iso_mass) | set(data.el_mass))
+    for z in zs:
+        sym = data.sym_of_z.get(z)
+        if sym is None or z == 0:
+            continue
+        if data.has_data((sym, 0, 0)) is False:
+            out.append((sym, 0, 0))
+    for (z, a) in sorted(data.iso_mass):
+        sym = data.sym_of_z.get(z)
+        if z == 0 or sym is None:
+            continue
+        if data.has_data((sym, a, 0)) is False:
+            out.append((sym, a, 0))
+    return out
+
+
+def do_nodata_sweep(ck, keys):
+    for key in keys:
+        try:
+            lib_atom(ck.pt, key)
+        except Exception:
+            ck.acc.count("nodata_atoms_not_in_library")       # isotope lists are C06
+            continue
+        ck.case("compound", [(1, key)], "list", ("density", 1.0), ("wl", [1.798], "scalar"))
+
+
 def pair_list():
     out = []
     for i in range(len(K)):
@@ -576,12 +608,14 @@ def shard(args):
                         do_compound(ck, [(ca, a), (cb, b), (cc, c)], thorough)
         elif kind == "nodata":
             do_nodata(ck, tuple(it))
+        elif kind == "nodata-sweep":
+            do_nodata_sweep(ck, [tuple(k) for k in it])
         else:
             raise MachineryError(kind)
         acc.count("compounds:" + kind)
     if items:
         acc.sample(dict(kind=kind, first=[list(x) if isinstance(x, tuple) else x for x in
-                                         (items[0] if kind != "single" and kind != "nodata" else [items[0]])]))
+                                         (items[0] if kind in ("pair", "triple") else [items[0]][:1])][:3]))
     return acc
 
 
@@ -638,6 +672,9 @@ def run(ctx):
     for chunk in _balanced(pairs, [_weight(data, p) for p in pairs], 2 * nsh):
         jobs.append(("pair", chunk, tier))
     jobs.append(("nodata", list(NODATA), tier))
+    nd = all_nodata_atoms(data)
+    ctx.acc.info["atoms_without_data_reader"] = len(nd)
+    jobs.append(("nodata-sweep", [nd], tier))
     if not ctx.quick:
         triples = triple_list()
         for chunk in _balanced(triples, [_weight(data, t) for t in triples], 2 * nsh):
